@@ -670,17 +670,33 @@ def run_class(kind, alg, ss, cc):
         return {"exc": type(e).__name__}
 
 
+def _class_deltaf():
+    """the classes never pass `deltaf` (C11_defaults_plscf): an extraction through them uses the routine's default, read from the tested tree"""
+    import translate_defaults
+    from common import REPO
+
+    return translate_defaults.func_default(REPO, "plscf.pLSCF_mpe", "deltaf")
+
+
 def case_of_result(kind, alg, cc):
     r = alg.result
     cov = None
     if not kind.startswith("pLSCF") and r.Fn_poles_cov is not None:
         cov = {"fn": np.asarray(r.Fn_poles_cov, float), "xi": np.asarray(r.Xi_poles_cov, float), "phi": np.asarray(r.Phi_poles_cov, float)}
     return {"freq": cc["freq"], "Fn": np.asarray(r.Fn_poles, float), "Xi": np.asarray(r.Xi_poles, float), "Phi": np.asarray(r.Phi_poles, complex),
-            "Lab": np.asarray(r.Lab), "order": cc["order"], "rtol": cc["rtol"], "deltaf": 0.05, "cov": cov, "kind": cc["kind"]}
+            "Lab": np.asarray(r.Lab), "order": cc["order"], "rtol": cc["rtol"], "deltaf": _class_deltaf(), "cov": cov, "kind": cc["kind"]}
 
 
 # ----------------------------------------------------------------------------- correspondence
+# --- default values as regenerated obligations (Generated/Defaults.lean <- harness/translate_defaults.py; stream defaults[...])
+import defaults_stream  # noqa: E402
+from common import all_pre_build as pre_build  # noqa: E402,F401,F811  (runs EVERY translate_*.py)
+LEAN_MODULES += ["PyomaVerif.Props.WiringDefaultsC11", "PyomaVerif.Props.WiringDefaultsLab"]
+THEOREMS += ["PV.WiringDefaults.C11_defaults_ssi", "PV.WiringDefaults.C11_defaults_plscf", "PV.WiringDefaults.C11_label_literals", "PV.WiringDefaults.C11_label_literals_model", "PV.WiringDefaults.C11_label_literals_model_ssi"]
+
+
 def correspondence(ctx):
+    defaults_stream.correspondence(ctx, props=('C11',))
     n = ctx.n(1200, 10000)
     for k in range(n):
         malformed = ctx.rng.random() < 0.2
